@@ -278,7 +278,13 @@ def reductions(blk):
                 raise TranslateError(f"__reduce{n}: unexpected argument order {args}")
             if f"let __start = __sym0.0.clone();" not in body or f"let __end = __sym{k - 1}.2.clone();" not in body:
                 raise TranslateError(f"__reduce{n}: unexpected span")
-        prods[n] = {"pop": k, "nt": int(ret.group(2)), "action": int(call.group(1)), "kind": "normal", "comment": cm.group(1)}
+        push = re.search(r"__symbols\.push\(\(__start, __Symbol::Variant(\d+)\(__nt\), __end\)\);", body)
+        if not push:
+            raise TranslateError(f"__reduce{n}: push not found")
+        prods[n] = {"pop": k, "nt": int(ret.group(2)), "action": int(call.group(1)), "kind": "normal", "comment": cm.group(1),
+                    "pops": [int(v) for _, v in pops], "push": int(push.group(1))}
+        if [int(i) for i, _ in pops] != list(range(k - 1, -1, -1)):
+            raise TranslateError(f"__reduce{n}: symbols not popped last-to-first")
     # arms written inline in __reduce: fallible (error) productions and the accept production
     m = re.search(r"pub\(crate\) fn __reduce<", blk)
     dis = blk[m.end():]
@@ -289,12 +295,16 @@ def reductions(blk):
             continue
         cm = re.search(r"//\s*(.*?)\s*=>\s*ActionFn\((\d+)\);", body)
         if "return Some(Ok(__nt));" in body:
-            prods[n] = {"pop": 1, "nt": None, "action": int(cm.group(2)), "kind": "accept", "comment": cm.group(1)}
+            pv = re.search(r"let __sym0 = __pop_Variant(\d+)\(__symbols\);", body)
+            prods[n] = {"pop": 1, "nt": None, "action": int(cm.group(2)), "kind": "accept", "comment": cm.group(1),
+                        "pops": [int(pv.group(1))], "push": None}
         elif "Err(e) => return Some(Err(e))," in body:
             ret = re.search(r"\((\d+), (\d+)\)\s*$", body.strip())
             if "let __sym0 = __pop_Variant1(__symbols);" not in body or int(ret.group(1)) != 1:
                 raise TranslateError(f"reduce arm {n}: unexpected fallible production")
-            prods[n] = {"pop": 1, "nt": int(ret.group(2)), "action": int(cm.group(2)), "kind": "fallible", "comment": cm.group(1)}
+            push = re.search(r"__symbols\.push\(\(__start, __Symbol::Variant(\d+)\(__nt\), __end\)\);", body)
+            prods[n] = {"pop": 1, "nt": int(ret.group(2)), "action": int(cm.group(2)), "kind": "fallible", "comment": cm.group(1),
+                        "pops": [1], "push": int(push.group(1))}
         else:
             raise TranslateError(f"reduce arm {n}: unexpected shape")
     tail = dis[dis.rindex("_ => panic!"):]
@@ -306,6 +316,67 @@ def reductions(blk):
     if idx != list(range(len(idx))):
         raise TranslateError("productions are not numbered contiguously")
     return [prods[i] for i in idx]
+
+
+# ------------------------------------------------------------------ Rust types -> vty
+def split_type_args(s):
+    out = []; depth = 0; cur = ""
+    for c in s:
+        if c in "<(":
+            depth += 1
+        elif c in ">)":
+            depth -= 1
+        if c == "," and depth == 0:
+            out.append(cur.strip()); cur = ""
+        else:
+            cur += c
+    if cur.strip():
+        out.append(cur.strip())
+    return out
+
+
+def rust_type(t):
+    t = t.strip()
+    if t == "&'input str":
+        return "TTok"
+    if t == "usize":
+        return "TLoc"
+    if t == "String":
+        return "TString"
+    if t.startswith("__lalrpop_util::ErrorRecovery<") or t.startswith("__state_machine::ErrorRecovery<"):
+        return "TErr"
+    m = re.fullmatch(r"(?:core::option::)?Option<(.*)>", t, re.S)
+    if m:
+        return f"(TOpt {rust_type(m.group(1))})"
+    m = re.fullmatch(r"(?:alloc::vec::)?Vec<(.*)>", t, re.S)
+    if m:
+        return f"(TVec {rust_type(m.group(1))})"
+    m = re.fullmatch(r"Result<(.*),\s*__lalrpop_util::ParseError<.*>>", t, re.S)
+    if m:
+        return rust_type(split_type_args(m.group(1) + "," )[0]) if False else rust_type(m.group(1))
+    if t.startswith("(") and t.endswith(")"):
+        parts = [rust_type(x) for x in split_type_args(t[1:-1])]
+        if parts == ["TString", "(TOpt TString)"]:
+            return "TKV"
+        return "(TTuple [" + "; ".join(parts) + "])"
+    m = re.fullmatch(r"ast::(\w+)", t)
+    if m:
+        return f'(TAst "{m.group(1)}")'
+    raise TranslateError(f"unknown Rust type {t!r}")
+
+
+def symbol_variants(blk):
+    m = re.search(r"pub\(crate\) enum __Symbol<'input>\s*\{", blk)
+    if not m:
+        raise TranslateError("__Symbol not found")
+    body = blk[m.end():matching(blk, m.end() - 1)]
+    out = []
+    for line in [l.strip() for l in body.split("\n") if l.strip()]:
+        mm = re.fullmatch(r"Variant(\d+)\((.*)\),", line)
+        if not mm or int(mm.group(1)) != len(out):
+            raise TranslateError(f"__Symbol: unexpected line {line!r}")
+        out.append(rust_type(mm.group(2)))
+    return out
 
 
 # ------------------------------------------------------------------ actions
@@ -327,17 +398,17 @@ def split_actions(src):
             for line in [l.strip() for l in rest.split("\n") if l.strip()]:
                 mm = re.match(r"\(_, (mut )?(\w+), _\): \(usize, (.*), usize\),$", line)
                 if mm:
-                    plist.append(("bind", mm.group(2)))
+                    plist.append(("bind", mm.group(2), rust_type(mm.group(3))))
                     continue
                 mm = re.match(r"(__\d+): \(usize, (.*), usize\),$", line)
                 if mm:
-                    plist.append(("triple", mm.group(1)))
+                    plist.append(("triple", mm.group(1), rust_type(mm.group(2))))
                     continue
                 if line in ("__lookbehind: &usize,", "__lookahead: &usize,"):
-                    plist.append(("look", line.split(":")[0]))
+                    plist.append(("look", line.split(":")[0], None))
                     continue
                 raise TranslateError(f"__action{n}: unexpected parameter {line!r}")
-        acts[n] = {"params": plist, "ret": m.group(3).strip(), "body": m.group(4)}
+        acts[n] = {"params": plist, "ret": m.group(3).strip(), "ret_ty": rust_type(re.sub(r"\s+", " ", m.group(3).strip())), "body": m.group(4)}
     return acts
 
 
@@ -347,17 +418,17 @@ def norm(s):
 
 # lalrpop's own glue, recognised by (normalised) body text: body -> Coq expression over the bound names
 GLUE = {
-    "__0": "{__0}",
-    "v": "{v}",
-    "Some(__0)": "VOpt (Some {__0})",
-    "None": "VOpt None",
-    "alloc::vec![]": "VVec []",
-    "alloc::vec![__0]": "VVec [{__0}]",
-    "{ let mut v = v; v.push(e); v }": "vec_push {v} {e}",
-    "match e { None => v, Some(e) => { v.push(e); v } }": "vec_push_opt {v} {e}",
-    "(__0, __1)": "VTuple [{__0}; {__1}]",
-    "__lookbehind.clone()": "VLoc lookbehind",
-    "__lookahead.clone()": "VLoc lookahead",
+    "__0": ("GId", ["__0"]),
+    "v": ("GId", ["v"]),
+    "Some(__0)": ("GSome", ["__0"]),
+    "None": ("GNone", []),
+    "alloc::vec![]": ("GVecNil", []),
+    "alloc::vec![__0]": ("GVecOne", ["__0"]),
+    "{ let mut v = v; v.push(e); v }": ("GPush", ["v", "e"]),
+    "match e { None => v, Some(e) => { v.push(e); v } }": ("GPushOpt", ["v", "e"]),
+    "(__0, __1)": ("GTuple2", ["__0", "__1"]),
+    "__lookbehind.clone()": ("GBehind", []),
+    "__lookahead.clone()": ("GAhead", []),
 }
 
 
@@ -368,82 +439,85 @@ def load_user_actions():
 
 
 def action_to_coq(n, a, acts, user):
+    """returns the Coq term of the action's definition (adef)"""
     params = a["params"]
     body = norm(a["body"])
     looks = [p for p in params if p[0] == "look"]
     names = [p[1] for p in params if p[0] != "look"]
-    # positional names a0.. for the triples the action receives
-    header = f"Definition action{n} (cx : ctx) (lookbehind lookahead : N) (args : list triple) : sem * list diag :=\n"
     nargs = len(names)
-    pat = "[" + "; ".join(f"a{i}" for i in range(nargs)) + "]"
     if looks and nargs:
         raise TranslateError(f"__action{n}: both lookaround and symbols")
     if body in GLUE or body in user:
-        # a base action: lalrpop glue or a user action
-        env = {p[1]: f"(tval a{i})" for i, p in enumerate([q for q in params if q[0] == "bind"])}
+        pos = {}
+        for i, p in enumerate([q for q in params if q[0] == "bind"]):
+            if p[1] != "_":
+                pos[p[1]] = i
         if body in GLUE:
-            tmpl = GLUE[body]
-            expr = re.sub(r"\{(\w+)\}", lambda m: env[m.group(1)], tmpl)
-            return header + f"  match args with\n  | {pat} => ({expr}, [])\n  | _ => (VBad, [])\n  end.\n"
-        if body in user:
-            fn, order = user[body]
-            missing = [x for x in order if x not in env and x not in ("__start", "__end")]
-            if missing:
-                raise TranslateError(f"__action{n}: user action {fn} expects parameters {missing}")
-            call = fn + " cx " + " ".join(env[x] for x in order)
-            return header + f"  match args with\n  | {pat} => {call}\n  | _ => (VBad, [])\n  end.\n"
-        raise TranslateError(f"__action{n}: unknown action body: {body[:160]}")
+            kind, order = GLUE[body]
+            return f"AGlue {kind} {nargs} [" + "; ".join(str(pos[x]) for x in order) + "]"
+        fn, order = user[body]
+        missing = [x for x in order if x not in pos]
+        if missing:
+            raise TranslateError(f"__action{n}: user action {fn} expects parameters {missing}")
+        return f"AUser U{fn[3:]} {nargs} [" + "; ".join(str(pos[x]) for x in order) + "]"
     if not all(p[0] in ("triple", "look") for p in params):
         raise TranslateError(f"__action{n}: unknown action body: {body[:160]}")
-    # a wrapper: straight-line code computing spans and calling other actions
-    lines = []
-    env = {f"__{i}": f"a{i}" for i in range(nargs)}
+    # a wrapper: straight-line code computing spans and calling other actions -> data
+    env = {f"__{i}": f"AArg {i}" for i in range(nargs)}
+    loc = {}
+    steps = []
     text = a["body"]
     stmts = [norm(s) for s in re.split(r";\n", text) if s.strip()]
-    diags = []
     final = None
+    pending = {}
+    ntemps = 0
     for st in stmts:
         m = re.fullmatch(r"let (__(?:start|end)\d+) = (__\w+)\.(0|2)\.clone\(\)", st)
         if m:
-            src = env[m.group(2)]
-            lines.append(f"      let {m.group(1)[2:]} := {'tstart' if m.group(3) == '0' else 'tend'} {src} in")
+            loc[m.group(1)] = ("LStart" if m.group(3) == "0" else "LEnd") + f" ({env[m.group(2)]})"
             continue
         m = re.fullmatch(r"let (__(?:start|end)\d+) = (__lookbehind|__lookahead)\.clone\(\)", st)
         if m:
-            lines.append(f"      let {m.group(1)[2:]} := {m.group(2)[2:]} in")
+            loc[m.group(1)] = "LBehind" if m.group(2) == "__lookbehind" else "LAhead"
             continue
         m = re.fullmatch(r"let (__temp\d+) = __action(\d+)\( lookup, diagnostics, input, (.*?),? \)", st)
         if m:
             callee = int(m.group(2))
+            if callee >= n:
+                raise TranslateError(f"__action{n} calls __action{callee}: not an earlier action")
             cargs = [x.strip() for x in m.group(3).split(",") if x.strip()]
-            t = m.group(1)[2:]
             if cargs and cargs[0].startswith("&__start"):
                 if len(cargs) != 2 or not cargs[1].startswith("&__end"):
                     raise TranslateError(f"__action{n}: unexpected lookaround call")
-                lines.append(f"      let '({t}v, {t}d) := action{callee} cx {cargs[0][3:]} {cargs[1][3:]} [] in")
+                pending[m.group(1)] = (callee, None, cargs[0][1:], cargs[1][1:])
             else:
-                lines.append(f"      let '({t}v, {t}d) := action{callee} cx lookbehind lookahead [{'; '.join(env[x] for x in cargs)}] in")
-            diags.append(f"{t}d")
-            env[m.group(1) + "#raw"] = f"{t}v"
+                pending[m.group(1)] = (callee, [env[x] for x in cargs], None, None)
             continue
         m = re.fullmatch(r"let (__temp\d+) = \((__start\d+), (__temp\d+), (__end\d+)\)", st)
         if m:
-            t = m.group(1)[2:]
-            lines.append(f"      let {t} := ({m.group(2)[2:]}, {t}v, {m.group(4)[2:]}) in")
-            env[m.group(1)] = t
+            t = m.group(1)
+            if t != m.group(3) or t not in pending:
+                raise TranslateError(f"__action{n}: unexpected temp construction")
+            callee, cargs, ls, le = pending.pop(t)
+            if cargs is None and (ls != m.group(2) or le != m.group(4)):
+                raise TranslateError(f"__action{n}: lookaround call with other bounds than the temp's span")
+            argtxt = "None" if cargs is None else "(Some [" + "; ".join(cargs) + "])"
+            steps.append(f"WS ({loc[m.group(2)]}) ({loc[m.group(4)]}) {callee}%N {argtxt}")
+            env[t] = f"ATemp {ntemps}"
+            ntemps += 1
             continue
         m = re.fullmatch(r"__action(\d+)\( lookup, diagnostics, input, (.*?),? \)", st)
         if m:
             callee = int(m.group(1))
+            if callee >= n:
+                raise TranslateError(f"__action{n} calls __action{callee}: not an earlier action")
             cargs = [x.strip() for x in m.group(2).split(",") if x.strip()]
-            final = f"action{callee} cx lookbehind lookahead [{'; '.join(env[x] for x in cargs)}]"
+            final = (callee, [env[x] for x in cargs])
             continue
         raise TranslateError(f"__action{n}: unrecognised statement {st[:120]!r}")
-    if final is None:
-        raise TranslateError(f"__action{n}: no final call")
-    dl = " ++ ".join(diags + ["fd"]) if diags else "fd"
-    return (header + f"  match args with\n  | {pat} =>\n" + "\n".join(lines) +
-            f"\n      let '(fv, fd) := {final} in (fv, {dl})\n  | _ => (VBad, [])\n  end.\n")
+    if final is None or pending:
+        raise TranslateError(f"__action{n}: no final call / dangling temp")
+    return f"AWrap (W {nargs} [" + "; ".join(steps) + f"] {final[0]}%N [" + "; ".join(final[1]) + "])"
 
 
 def order_actions(acts):
@@ -479,6 +553,121 @@ def gen_lex_table(src, blk):
     return "\n".join(out)
 
 
+def automaton_facts(blk, action, eof, goto, prods, names, ncols, nstates):
+    """grammar symbols of every production's right-hand side (parsed from lalrpop's production comments), the accessing
+    symbol of every state and its predecessor states (computed here from the tables).  All three are only CLAIMS:
+    Proofs/Automaton.v re-checks them against the tables by computation."""
+    lhs_of = {}
+    for p in prods:
+        name = p["comment"].split(" = ")[0].strip() if " = " in p["comment"] else p["comment"].split(" =")[0].strip()
+        if p["nt"] is not None:
+            if lhs_of.setdefault(name, p["nt"]) != p["nt"]:
+                raise TranslateError(f"nonterminal {name} has two indices")
+    term = {n: i for i, n in enumerate(names)}
+
+    def sym(tok):
+        tok = tok.strip()
+        if tok == "error":
+            return "SErr"
+        if tok in term:
+            return f"ST {term[tok]}"
+        if tok in lhs_of:
+            return f"SNT {lhs_of[tok]}"
+        raise TranslateError(f"unknown grammar symbol {tok!r}")
+
+    def split_rhs(r):
+        # symbols are separated by ", " at nesting depth 0 of ( ) < >
+        out, depth, cur = [], 0, ""
+        i = 0
+        while i < len(r):
+            c = r[i]
+            if c == '"':
+                j = r.index('"', i + 1)
+                cur += r[i:j + 1]; i = j + 1; continue
+            if c in "(<":
+                depth += 1
+            elif c in ")>":
+                depth -= 1
+            if c == "," and depth == 0:
+                out.append(cur); cur = ""; i += 1; continue
+            cur += c; i += 1
+        if cur.strip():
+            out.append(cur)
+        return [x.strip() for x in out]
+    rhs = []
+    for p in prods:
+        c = p["comment"]
+        body = c.split("=", 1)[1].strip() if "=" in c else ""
+        # the nonterminal name itself may contain "=" (e.g. ("=" <Value>)?): split at the first " = " outside quotes/parens
+        depth = 0; k = None; i = 0
+        while i < len(c):
+            ch = c[i]
+            if ch == '"':
+                i = c.index('"', i + 1) + 1; continue
+            if ch in "(<":
+                depth += 1
+            elif ch in ")>":
+                depth -= 1
+            elif ch == "=" and depth == 0:
+                k = i; break
+            i += 1
+        body = c[k + 1:].strip()
+        syms = [sym(x) for x in split_rhs(body)] if body else []
+        if len(syms) != p["pop"]:
+            raise TranslateError(f"production {c!r}: {len(syms)} symbols in the comment, {p['pop']} popped")
+        rhs.append(syms)
+    # the transitions that can actually occur: least fixpoint over shifts and over gotos after reductions
+    # (the goto function's default arms also answer for states where the nonterminal can never be reduced to)
+    def goto_of(t, nt):
+        cases, default = goto[nt]
+        for states, tgt in cases:
+            if t in states:
+                return tgt
+        return default
+    acc = [None] * nstates
+    preds = [set() for _ in range(nstates)]
+    live = {0}
+    edges = set()
+
+    def add_edge(t, x, tgt):
+        if (t, tgt) in edges:
+            return False
+        if acc[tgt] is None:
+            acc[tgt] = x
+        elif acc[tgt] != x:
+            raise TranslateError(f"state {tgt} is entered by {acc[tgt]} and by {x}")
+        edges.add((t, tgt)); preds[tgt].add(t); live.add(tgt)
+        return True
+    changed = True
+    while changed:
+        changed = False
+        for s in sorted(live):
+            row = action[s * ncols:(s + 1) * ncols]
+            reduces = set()
+            for c, a in enumerate(row):
+                if a > 0:
+                    changed |= add_edge(s, "SErr" if c == ncols - 1 else f"ST {c}", a - 1)
+                elif a < 0:
+                    reduces.add(-(a + 1))
+            if eof[s] < 0:
+                reduces.add(-(eof[s] + 1))
+            for r in reduces:
+                p = prods[r]
+                if p["kind"] == "accept":
+                    continue
+                back = {s}
+                for _ in range(p["pop"]):
+                    back = set(t for b in back for t in preds[b])
+                for t in back:
+                    changed |= add_edge(t, f"SNT {p['nt']}", goto_of(t, p["nt"]))
+    out = ["(* CLAIMS re-checked by Proofs/Automaton.v: right-hand sides, accessing symbols, predecessors *)",
+           "Definition gen_prod_rhs : list (list gsym) :=\n  [ " + ";\n    ".join("[" + "; ".join(r) + "]" for r in rhs) + " ]%N.",
+           "Definition gen_accessing : list (option gsym) :=\n  [ " + "; ".join("None" if a is None else f"Some ({a})" for a in acc) + " ]%N.",
+           "Definition gen_preds : list (list N) :=\n  [ " + ";\n    ".join("[" + "; ".join(str(x) for x in sorted(set(p))) + "]" for p in preds) + " ]%N.",
+           f"Definition gen_nnt : nat := {max(goto) + 1}%nat."]
+    return "\n".join(out)
+
+
 def gen_lr_tables(blk):
     action = int_array(blk, "__ACTION")
     eof = int_array(blk, "__EOF_ACTION")
@@ -505,7 +694,7 @@ def gen_lr_tables(blk):
     def z(x):
         return str(x) if x >= 0 else f"({x})"
     out = ["(* GENERATED by translate/lalrpop_rs.py from the lalrpop output (OUT_DIR/aidl.rs) -- do not edit *)",
-           "From Coq Require Import ZArith.", "From AidlV Require Import Lib.Str.", "Local Open Scope Z_scope.", "",
+           "From Coq Require Import ZArith.", "From AidlV Require Import Lib.Str Model.Vty.", "Local Open Scope Z_scope.", "",
            f"Definition gen_ncols : nat := {ncols}%nat.   (* terminals + the error column *)",
            f"Definition gen_nstates : nat := {nstates}%nat.",
            "Definition gen_action_rows : list (list Z) :=\n  [ " + ";\n    ".join("[" + "; ".join(z(x) for x in r) + "]" for r in rows) + " ].",
@@ -529,6 +718,16 @@ def gen_lr_tables(blk):
             "{'normal': 0, 'fallible': 1, 'accept': 2}", str({'normal': 0, 'fallible': 1, 'accept': 2}[p['kind']]))
         for p in prods) + " ].")
     out.append("")
+    out.append("(* the value type of every __Symbol variant; tokens are Variant0, the error symbol Variant1 *)")
+    out.append("Definition gen_variants : list vty :=\n  [ " + ";\n    ".join(symbol_variants(blk)) + " ].")
+    out.append("")
+    out.append("(* per production: the variants popped (first symbol first) and the variant pushed (None: the accept production) *)")
+    out.append("Definition gen_prod_types : list (list nat * option nat) :=\n  [ " + ";\n    ".join(
+        "([" + "; ".join(str(v) for v in reversed(p["pops"])) + "]%nat, " + (f"Some {p['push']}%nat" if p["push"] is not None else "None") + ")"
+        for p in prods) + " ].")
+    out.append("")
+    out.append(automaton_facts(blk, action, eof, goto, prods, names, ncols, nstates))
+    out.append("")
     out.append("(* the productions as lalrpop printed them *)")
     out.append("Definition gen_production_text : list string :=\n  [ " + ";\n    ".join('"' + p["comment"].replace('"', '""') + '"' for p in prods) + " ]%string.")
     return "\n".join(out) + "\n"
@@ -538,13 +737,16 @@ def gen_parse_actions(src):
     acts = split_actions(src)
     user = load_user_actions()
     out = ["(* GENERATED by translate/lalrpop_rs.py from the lalrpop output (OUT_DIR/aidl.rs) -- do not edit *)",
-           "From AidlV Require Import Model.Actions.", ""]
-    for n in order_actions(acts):
-        out.append(action_to_coq(n, acts[n], acts, user))
-    out.append("Definition gen_action (n : N) : ctx -> N -> N -> list triple -> sem * list diag :=\n  match n with")
+           "From AidlV Require Import Model.Wrappers.", "Local Open Scope nat_scope.", ""]
+    table, sigs = [], []
     for n in sorted(acts):
-        out.append(f"  | {n}%N => action{n}")
-    out.append("  | _ => fun _ _ _ _ => (VBad, [])\n  end.\n")
+        table.append(f"({n}%N, {action_to_coq(n, acts[n], acts, user)})")
+        ptys = [p[2] for p in acts[n]["params"] if p[0] != "look"]
+        sigs.append(f"({n}%N, ([" + "; ".join(ptys) + f"], {acts[n]['ret_ty']}))")
+    out.append("(* every __actionN, in order: lalrpop glue, a user action of the grammar, or a span-computing wrapper -- all as data *)")
+    out.append("Definition gen_actions : list (N * adef) :=\n  [ " + ";\n    ".join(table) + " ].\n")
+    out.append("(* parameter and result types, from the Rust signatures *)")
+    out.append("Definition gen_action_sigs : list (N * (list vty * vty)) :=\n  [ " + ";\n    ".join(sigs) + " ].\n")
     return "\n".join(out)
 
 
